@@ -823,7 +823,7 @@ class VG:
             self.event('slice', (b, i[1], _iadd(hi, lit(1, 'i')) if i[3] else hi), e)
         else:
             self.event('index', (b, i), e)
-        return ('get', b, i)
+        return seq_get(b, i)
 
     def seq_elem(self, v, i):
         """i-th element of an array value (literal arrays project directly)."""
@@ -1801,6 +1801,8 @@ class VG:
             return self.iter_call(e, fr, name, short, argv)
         if name == 'std::ops::RangeInclusive::new':
             return ('range', d(argv[0]), d(argv[1]), True)
+        if name == 'std::iter::once' and len(argv) == 1:
+            return ('once', d(argv[0]))
         if name in ('std::iter::repeat', 'std::iter::repeat_n', 'std::iter::repeat_with'):
             x = argv[0]
             if short == 'repeat_with':
@@ -2018,7 +2020,7 @@ class VG:
         if short == 'get':
             i = d(argv[1])
             inb = op('lt', i, ('len', s))
-            return phi(inb, some(('get', s, i)), NONE)
+            return phi(inb, some(seq_get(s, i)), NONE)
         if short == 'get_mut':
             i = d(argv[1])
             inb = op('lt', i, ('len', s))
@@ -2093,6 +2095,24 @@ class VG:
             seq = _iter_seq(it)
             self.event('alloc', (('len', seq),), e)
             return seq
+        if short == 'chain' and len(argv) == 2:
+            other = argv[1]
+            if isinstance(other, tuple) and other and other[0] == 'ref':
+                other = ('iter', self.read_place(other[1]))
+            elif not (isinstance(other, tuple) and other and other[0] in ('iter', 'range', 'enumerate', 'take', 'skip', 'rev', 'copied', 'zip', 'once', 'chain')):
+                other = ('iter', d(other))
+            return ('chain', it, other)
+        if short == 'collect' and isinstance(it, tuple) and it and iter_desc(it) is not None and iter_desc(it)[0] is not None \
+                and str(e.get('ty', '')).startswith(('std::vec::Vec', 'std::collections::VecDeque', 'alloc::vec::Vec')):
+            # collecting a describable iterator: a new sequence of `count` items item(0..count-1)
+            cnt, item_fn = iter_desc(it)
+            self.nloops += 1
+            L = 'L%d' % self.nloops
+            p_ = ('idx', L)
+            self.loops[L] = {'iter': ('range', lit(0, 'i'), cnt, False), 'node': e, 'carried': {}, 'outer': tuple(self.loop_stack),
+                             'hyps': [op('ge', p_, lit(0, 'i')), op('lt', p_, cnt)], 'item': self.deref(item_fn(p_))}
+            self.event('alloc', (cnt,), e)
+            return ('ext', ('seq_new',), L, cnt)
         if short in ('take', 'skip', 'step_by'):
             return (short, it, d(argv[1]))
         if short == 'zip':
@@ -2274,6 +2294,15 @@ class VG:
         return self.note_unknown('iter-' + short, e)
 
 
+def seq_get(s, i):
+    """Element i of a sequence term; the first and the last element have one spelling (front / back)."""
+    if i == lit(0, 'i') and isinstance(s, tuple) and s and s[0] in ('in', 'push_back', 'pop_front', 'pop_back', 'phi', 'push_front', 'mu'):
+        return ('front', s)
+    if isinstance(i, tuple) and i[:2] == ('op', 'isub') and i[2][0] == ('len', s) and i[2][1] == lit(1, 'i'):
+        return ('back', s)
+    return ('get', s, i)
+
+
 def _iadd(a, b):
     if a == lit(0, 'i'):
         return b
@@ -2365,6 +2394,14 @@ def iter_desc(it):
             return None
         cnt, f = d_
         return cnt, (lambda p, f=f: ('tuple', (p, f(p))))
+    if k == 'once':
+        return lit(1, 'i'), (lambda p, x=it[1]: x)
+    if k == 'chain':
+        a, b = iter_desc(it[1]), iter_desc(it[2])
+        if a is None or b is None or a[0] is None:
+            return None
+        cnt = None if b[0] is None else _iadd(a[0], b[0])
+        return cnt, (lambda p, fa=a[1], fb=b[1], na=a[0]: phi(op('lt', p, na), fa(p), fb(_isub(p, na))))
     if k == 'zip':
         a, b = iter_desc(it[1]), iter_desc(it[2])
         if a is None or b is None:
@@ -2530,12 +2567,37 @@ def exits_value(exits, getter):
     """Combine the mutually exclusive exits into one phi-chain for `getter(exit)`."""
     if not exits:
         return unk('no-exit')
-    acc = getter(exits[-1])
-    # common prefix of path conditions
-    for ex in reversed(exits[:-1]):
-        c = conj(list(ex.pc))
-        acc = phi(c, getter(ex), acc)
-    return acc
+    # The exits partition the input space by their path conditions, which share prefixes (a path condition grows literal by
+    # literal). Rebuild the decision tree, so that an early return and the equivalent nested if/else give the same term:
+    # split on the first literal of the first exit when every exit starts with that literal or its negation.
+    items = [([c for c in ex.pc if not (isinstance(c, tuple) and c and c[0] == 'inloop')], getter(ex)) for ex in exits]
+
+    def chain(its):
+        acc = its[-1][1]
+        for pc, v in reversed(its[:-1]):
+            acc = phi(conj(list(pc)), v, acc)
+        return acc
+
+    def tree(its, depth):
+        if len(its) == 1:
+            return its[0][1]
+        if depth > 40 or not its[0][0]:
+            return chain(its)
+        c = its[0][0][0]
+        nc = neg_cond(c)
+        yes, no = [], []
+        for pc, v in its:
+            if pc and pc[0] == c:
+                yes.append((pc[1:], v))
+            elif pc and pc[0] == nc:
+                no.append((pc[1:], v))
+            else:
+                return chain(its)
+        if not no:
+            # every exit lies under c: it is the enclosing context, not a decision
+            return tree(yes, depth + 1)
+        return phi(c, tree(yes, depth + 1), tree(no, depth + 1))
+    return tree(items, 0)
 
 
 SEQ_ADTS = ('std::vec::Vec', 'std::collections::VecDeque')
